@@ -105,6 +105,7 @@ var props = map[string]*prop{
 		level: "exploration",
 		jobs: []job{
 			regress,
+			{name: "concurrent", run: "^TestC15_Concurrent$", weight: 8},
 			{name: "errors", run: "^TestC15_Errors$", shards: [2]int{4, 16}, checks: [2]int{5000, 300000}},
 			{name: "fuzz", fuzz: "FuzzC15", thoroughOnly: true, fuzzTime: [2]time.Duration{0, 60 * time.Second}, weight: 16},
 		},
@@ -176,6 +177,7 @@ var props = map[string]*prop{
 			regress,
 			{name: "list", run: "^TestC08_List$", shards: [2]int{1, 10}},
 			{name: "source", run: "^TestC08_Source$"},
+			{name: "shared", run: "^TestC08_Shared$", shards: [2]int{2, 16}, checks: [2]int{1500, 40000}},
 			{name: "back", run: "^TestC08_Back$", shards: [2]int{4, 16}},
 		},
 		assumptions: baseAssumptions,
